@@ -164,11 +164,11 @@ func c15(r *Report, s *Sem) {
 		switch {
 		case fn == a.stopFn && bs.kind == "chan receive":
 			return "K5: the stop routine's wait for the receiver it has just cancelled; the receiver leaves through its own K1/K2 sites", true
-		case fn.Name() == "Close" && strings.Contains(fnName(fn), "inProcessTransport") && bs.kind == "chan send":
+		case fn.Name() == "Close" && fn.Signature.Recv() != nil && implementsTransport(s, fn.Signature.Recv().Type()) && bs.kind == "chan send" && sendsOnOwnBufferedSignal(bs.in):
 			return "K5: done signal of the in-process transport: buffered(1) and sent at most once (guarded by the closed flag under the mutex)", true
 		case fn == p.handoffFunc(s) && bs.kind == "chan send" && pendingSlotsBuffered(s):
 			return "K5: reply slot of a pending command: created with capacity 1 per request and taken atomically from the table, so at most one send ever targets it (C05.R2, C05.R5)", true
-		case fn.Name() == "newClient" && bs.kind == "chan send":
+		case bs.fn.Parent() != nil && bs.kind == "chan send" && isDialHandOff(s, bs):
 			return "K5: hand-off goroutine of an in-process dial (not a context-taking operation's own wait)", true
 		}
 		return "", false
@@ -282,8 +282,9 @@ func c15(r *Report, s *Sem) {
 			if g.Name() == "HandshakeContext" {
 				polled = true
 			}
-			r.Check(D, "func "+fnName(f)+" / TLS handshake deadline derives from the context", p.instrPos(c), usesCtx || polled, "the upgrade must end at the context's deadline")
-			r.Check(D, "func "+fnName(f)+" / TLS handshake honours cancellation within the poll interval", p.instrPos(c), polled || (fallback > 0 && fallback <= 5*time.Second),
+			// constructs are named by role (the private type's name is not part of the key of a known finding)
+			r.Check(D, "Transport.SetEncryption (TLS upgrade) / TLS handshake deadline derives from the context", p.instrPos(c), usesCtx || polled, "in func "+fnName(f)+": the upgrade must end at the context's deadline")
+			r.Check(D, "Transport.SetEncryption (TLS upgrade) / TLS handshake honours cancellation within the poll interval", p.instrPos(c), polled || (fallback > 0 && fallback <= 5*time.Second),
 				fmt.Sprintf("fallback deadline %v on the raw connection and no polling of the context: a cancelled context without deadline is honoured only after the fallback expires (statement: ≤ 5 s on TCP)", fallback))
 		})
 	}
@@ -500,4 +501,48 @@ func spawnerForcesDeadline(fn *ssa.Function) bool {
 		}
 	})
 	return ok
+}
+
+func implementsTransport(s *Sem, t types.Type) bool {
+	return types.Implements(t, s.transportT.Underlying().(*types.Interface))
+}
+
+// sendsOnOwnBufferedSignal: the send targets a field of the receiver that is created (in the package) with constant
+// capacity ≥ 1 and carries no data (bool/struct{} signal).
+func sendsOnOwnBufferedSignal(in ssa.Instruction) bool {
+	sd, ok := in.(*ssa.Send)
+	if !ok {
+		return false
+	}
+	f := pathOf(sd.Chan).Last()
+	if f == nil || curProg == nil {
+		return false
+	}
+	okAll, n := true, 0
+	for _, st := range fieldStores(curProg.LimeFuncs(), f) {
+		n++
+		mk, isMk := stripConv(st.Val).(*ssa.MakeChan)
+		if !isMk {
+			okAll = false
+			continue
+		}
+		if k, isC := constInt(mk.Size); !isC || k < 1 {
+			okAll = false
+		}
+	}
+	return okAll && n > 0
+}
+
+// isDialHandOff: a goroutine literal whose only job is to hand a freshly created transport to a listener's queue.
+func isDialHandOff(s *Sem, bs blockSite) bool {
+	sd, ok := bs.in.(*ssa.Send)
+	if !ok {
+		return false
+	}
+	el, ok := sd.Chan.Type().Underlying().(*types.Chan)
+	if !ok {
+		return false
+	}
+	n := namedOf(el.Elem())
+	return n != nil && implementsTransport(s, types.NewPointer(n)) && len(bs.fn.Blocks) == 1
 }
